@@ -23,7 +23,7 @@ import os
 import re
 import sys
 
-from .core import AnchorLost, REPO, short, walk
+from .core import AnchorLost, REPO, atom_of, short, walk
 
 sys.path.insert(0, os.path.dirname(os.path.dirname(os.path.abspath(__file__))))
 from plread import plread as P  # noqa: E402
@@ -211,6 +211,7 @@ def run(ctx, R):
     R.floor("primitive calls in the atom/character group", n_prim, 9)
     R.floor("throws in the atom/character group", n_throw, 20)
     integer_arms(F, R)
+    char_type_names(F, R)
 
 
 def integer_arms(F, R):
@@ -265,3 +266,80 @@ def integer_arms(F, R):
                 k += 1
     R.floor("Number::Integer arms in the atom/character primitives", n_arm, 2)
     R.notes.append("Rust primitives analysed with callees (depth 2, system_calls.rs): %s" % ", ".join(short(p) for p in sorted(scope)))
+
+
+# the classification atom a `char` method stands for when it is not the method's name without `is_`
+METHOD_ATOM = {"is_lowercase": "lower", "is_uppercase": "upper"}
+# the classification atom a lexer class macro stands for when it is not the macro's name without `_char`
+MACRO_ATOM = {"alpha_numeric_char": "alnum", "capital_letter_char": "upper", "small_letter_char": "lower"}
+CASE_METHOD = {"lower": "to_lowercase", "upper": "to_uppercase"}
+
+
+def char_type_names(F, R):
+    """char_type/2's primitive answers a classification query `chars == atom!("x")` with a test of the character. The
+    test and the atom are written side by side 27 times; each pair has to name the same class: `c.is_lowercase()` next to
+    atom!("lower"), the lexer class `binary_digit_char!` next to atom!("binary_digit"). The two case conversions
+    lower(L) / upper(U) call the conversion their functor names. The atoms are those of ctype/1 in charsio.pl."""
+    c = [p for p in F.items if re.search(r"system_calls::<impl machine::Machine>::char_type$", p)]
+    if len(c) != 1:
+        raise AnchorLost("Machine::char_type (%d)" % len(c))
+    body = F.hir(c[0])["body"]
+    rust_atoms = set()
+    n = 0
+    for x in walk(body):
+        if x["k"] != "If" or x["cond"]["k"] != "Binary" or x["cond"]["op"] != "And":
+            continue
+        test, eq = x["cond"]["a"], x["cond"]["b"]
+        if eq["k"] != "Binary" or eq["op"] != "Eq":
+            continue
+        name = atom_of(eq["b"]) or atom_of(eq["a"])
+        if name is None:
+            continue
+        n += 1
+        rust_atoms.add(name)
+        macs = [m[0] for m in (test.get("mac") or []) if m[0].endswith("_char")]
+        if macs:
+            want = MACRO_ATOM.get(macs[0], macs[0][:-len("_char")])
+            what = macs[0] + "!"
+        elif test["k"] == "MethodCall" and test["recv"].get("ty") == "char":
+            want = METHOD_ATOM.get(test["name"], test["name"][3:] if test["name"].startswith("is_") else test["name"])
+            what = "char::" + test["name"]
+        else:
+            want, what = None, test["k"]
+        R.ob("C22:char_type:class-test-matches-its-atom:%s" % name, want == name,
+             "Machine::char_type answers the class `%s` with the test %s (line %s), which is the test of the class `%s`" % (name, what, x["ln"], want), F.where(c[0]))
+    R.floor("classification tests of char_type", n, 27)
+    seen = set()
+    for m in walk(body):
+        if m["k"] != "Match":
+            continue
+        for arm in m["arms"]:
+            names = [atom_of(y) for y in walk(arm["pat"])]
+            names = [a for a in names if a in CASE_METHOD]
+            lits = [y for y in walk(arm["pat"]) if y.get("k") == "PLit" or y.get("k") == "Lit"]
+            if len(names) != 1:
+                continue
+            conv = sorted({y["name"] for y in walk(arm["body"]) if y["k"] == "MethodCall" and y["name"] in ("to_lowercase", "to_uppercase", "to_ascii_lowercase", "to_ascii_uppercase")})
+            seen.add(names[0])
+            R.ob("C22:char_type:case-conversion-matches-its-functor:%s" % names[0], conv == [CASE_METHOD[names[0]]],
+                 "Machine::char_type answers %s(X) with the conversion(s) %s (arm at line %s): char_type(a, lower(L)) gave L = \"A\"" % (names[0], conv, arm["ln"]), F.where(c[0]))
+    R.ob("C22:char_type:both-case-conversions-present", seen == {"lower", "upper"}, "Machine::char_type has conversion arms for %s only" % sorted(seen), F.where(c[0]))
+    # charsio.pl's ctype/1 enumerates exactly the atoms the primitive knows
+    text = open(os.path.join(REPO, "src/lib/charsio.pl")).read()
+    pl = set()
+    pl_case = set()
+    for term, line in P.read_clauses(text):
+        if term[0] == "error":
+            continue
+        h, b = P.head_body(term)
+        if P.functor(h) == ("ctype", 1):
+            a = h[2][0]
+            if a[0] == "atom":
+                pl.add(a[1])
+            elif a[0] == "cmp" and len(a[2]) == 1:
+                pl_case.add(a[1])
+    if not pl:
+        raise AnchorLost("charsio.pl: ctype/1 facts")
+    R.ob("C22:char_type:enumerated-classes-are-the-implemented-ones", pl == rust_atoms and pl_case == seen,
+         "charsio.pl's ctype/1 enumerates %s and not %s relative to the classes Machine::char_type implements (conversions: %s vs %s): char_type(C, T) with T unbound skips or "
+         "invents a class" % (sorted(pl - rust_atoms), sorted(rust_atoms - pl), sorted(pl_case), sorted(seen)), "src/lib/charsio.pl ctype/1")
